@@ -126,7 +126,7 @@ def critical_codes(codes):
         elif base == 'algebra.py' and (q.startswith('BladeDict.') or q.startswith('DefaultKeyDict.')
                                        or q.startswith('Algebra.register')):
             crit.append(c)
-        elif base == 'codegen.py' and q in ('do_codegen', 'do_compile', '_lambdify_mv'):
+        elif base == 'codegen.py' and q in ('do_codegen', 'do_compile', '_lambdify_mv', 'lambdify', 'func_builder'):
             crit.append(c)
         elif q.endswith(('.type_number', '._callable', '.issymbolic', '.free_symbols', '.grades')):
             crit.append(c)
@@ -546,6 +546,17 @@ class Sim:
             est = p.get('est_steps', 30000)
             self.pct_points = {self.rng.randrange(1, est) for _ in range(p.get('k', 2))}
             self._pct_low = 99
+        elif p['kind'] == 'pctc':
+            # PCT whose priority-change points are counted on line events inside cache-critical functions
+            n = len(self.threads)
+            prios = list(range(n))
+            self.rng.shuffle(prios)
+            for t, pr in zip(self.threads, prios):
+                t.prio = pr + 100
+            est = p.get('est_crit', 200)
+            self.pctc_points = {self.rng.randrange(1, est) for _ in range(p.get('k', 1))}
+            self.crit_steps = 0
+            self._pct_low = 99
         elif p['kind'] == 'walk':
             self.countdown = self._geom(p['p'])
 
@@ -567,7 +578,7 @@ class Sim:
                 if tid < len(self.threads):
                     return self.threads[tid]
             return self.threads[0]
-        if self.policy['kind'] == 'pct':
+        if self.policy['kind'] in ('pct', 'pctc'):
             return max(self.threads, key=lambda x: x.prio)
         return self.rng.choice(self.threads)
 
@@ -580,7 +591,7 @@ class Sim:
                         return c
             self.misaligned += 1
             return min(cands, key=lambda x: x.tid)
-        if self.policy['kind'] == 'pct':
+        if self.policy['kind'] in ('pct', 'pctc'):
             return max(cands, key=lambda x: x.prio)
         return self.rng.choice(cands)
 
@@ -642,6 +653,13 @@ class Sim:
                 self._pct_low -= 1
             best = max(self._runnable(), key=lambda x: x.prio)
             return best
+        if kind == 'pctc':
+            if code in self.crit:
+                self.crit_steps += 1
+                if self.crit_steps in self.pctc_points:
+                    t.prio = self._pct_low
+                    self._pct_low -= 1
+            return max(self._runnable(), key=lambda x: x.prio)
         if kind == 'seq':
             return t
         raise ValueError(kind)
